@@ -41,10 +41,11 @@ META = {
 
 # build step of Start: processor reservations over build attempts / run ends / repairs (Props/C11Build, Facts/C11Build)
 PROP["jobs"].append({"harness": "h_tree", "comp": "rebuild", "n_quick": 1500, "n_thorough": 40000, "fail_tag": "C11",
-                     "why": "a recorded sequence of buildRunnablePipeline attempts, run ends (Worker.Close + Sink.Close / ProcessorNode.Run exits) and "
+                     "why": "a recorded sequence of buildRunnablePipeline attempts, real Starts with injected Open failures of processors / connector plugins (v2 open phase "
+                            "of runPipeline with its rollback; v1 nodes), run ends (Worker.Close + Sink.Close / ProcessorNode.Run exits; Stop + WaitPipeline) and "
                             "configuration repairs against the real lifecycle service (v1 pkg/lifecycle, v2 pkg/lifecycle-poc) with the real "
                             "connector / processor services, observing after every step which processor instances are reserved (processor.Service.Update "
                             "refuses them), is not a run of Model/Rebuild (reject@k), or violates the C11 monitor noLeakAfterFailedBuild: a failed build "
-                            "keeps reservations (KNOWN FINDING in both engines), something stays reserved after every run ended, a repaired configuration "
+                            "keeps reservations (KNOWN FINDING in both engines), a failed open phase keeps the reservations of the processors it never opened (KNOWN FINDING, v2), something stays reserved after every run ended, a repaired configuration "
                             "does not build"})
 PROP["lean_modules"] += ["ConduitModel.Props.C11Build", "ConduitModel.Facts.C11Build"]
